@@ -10,6 +10,7 @@ func init() {
 		Units: []Unit{
 			{Name: "population", Quick: 1500, Thorough: 80000, Run: c09Pop},
 			{Name: "run-fragmenting-histories", Quick: 1500, Thorough: 80000, Run: c09RunHist},
+			{Name: "representation-tie-targets", Quick: 1500, Thorough: 60000, Run: c09Ties},
 		},
 	})
 }
@@ -79,4 +80,153 @@ func c09RunHist(c *Ctx) {
 		roundTripValidity(c, bm.B, bm.M, "end")
 	}
 	c.Distinct(h)
+}
+
+// c09Ties: the result chunk T sits exactly at (or next to) the point where the run form and the array form
+// cost the same (n runs holding 2n+1 values; also 2n and 2n+2), or at the array/bitmap boundary (4096/4097),
+// and T is reached through every operation family from operands derived from T. Every result must be the set
+// T and must validate.
+func c09Ties(c *Ctx) {
+	r := c.R
+	key := genKeys(r, 1)[0]
+	if key == 0xFFFF {
+		key = 0xFFFE
+	}
+	base := key << 16
+	n := []int{1, 1, 2, 3, 5, 10, 100, 500, 1500}[r.Intn(9)]
+	extra := []int{0, 1, 1, 1, 2}[r.Intn(5)] // card = 2n + extra
+	T := NewISet()
+	pos := uint64(r.Range(0, 40))
+	bump := r.Intn(n)
+	for i := 0; i < n; i++ {
+		l := uint64(2)
+		if i == bump {
+			l += uint64(extra)
+		}
+		T.AddRange(pos, pos+l-1)
+		pos += l + r.Range(1, 12)
+	}
+	if mx, _ := T.Max(); mx > 60000 {
+		return
+	}
+	span, _ := T.Max()
+	sh := func(s *ISet, b uint64) *ISet { return ivsToSet(shiftIVs(s.iv, b)) }
+	want := sh(T, base)
+	c.Step("target chunk: %d runs, %d values (2n+%d) at key %d: %v", n, T.Card(), extra, key, descSet(want))
+	c.Distinct(mix(want.Hash(), uint64(n)<<8|uint64(extra)))
+	build := func(m *ISet, forms ...string) *roaring.Bitmap {
+		f := forms[r.Intn(len(forms))]
+		bm, es := buildForm(r, m, f)
+		if es != "" {
+			c.Fail("build/"+f, "%s", es)
+			return nil
+		}
+		return bm.B
+	}
+	check := func(op string, res *roaring.Bitmap, w *ISet) bool {
+		c.Eval(1)
+		if d := checkEq(res, w); d != "" {
+			c.Fail("tie/"+op+"/content", "%s: %s", op, d)
+			return false
+		}
+		return validityOracle(c, res, "tie-"+op, "result")
+	}
+	// X = one long run covering T; holes = X \ T
+	X := ISetOf(IV{0, span + r.Range(0, 30)})
+	holes := X.AndNot(T)
+	xb := build(sh(X, base), "range", "opt")
+	hb := build(sh(holes, base), "addmany", "add", "opt")
+	if xb == nil || hb == nil {
+		return
+	}
+	c.Step("x = one run covering the target; y = the holes; x.AndNot(y), AndNot(x,y), Xor(x,y), x.Xor(y)")
+	c.Guard("tie", func() {
+		cl := xb.Clone()
+		cl.AndNot(hb)
+		if !check("IAndNot", cl, want) {
+			return
+		}
+		if !check("AndNot", roaring.AndNot(xb, hb), want) {
+			return
+		}
+		if !check("Xor", roaring.Xor(xb, hb), want) {
+			return
+		}
+		cl2 := xb.Clone()
+		cl2.Xor(hb)
+		if !check("IXor", cl2, want) {
+			return
+		}
+		// And with a superset of T that meets X exactly in T
+		Z := T.Or(ISetOf(IV{span + 100, span + 100 + r.Range(0, 3000)}))
+		zb := build(sh(Z, base), "addmany", "opt", "range")
+		if zb == nil {
+			return
+		}
+		if !check("And", roaring.And(xb, zb), want) {
+			return
+		}
+		cl3 := xb.Clone()
+		cl3.And(zb)
+		if !check("IAnd", cl3, want) {
+			return
+		}
+		// RemoveRange / Flip / Remove of the holes, one by one, on the covering run
+		cl4 := xb.Clone()
+		for _, v := range holes.Intervals() {
+			switch r.Intn(3) {
+			case 0:
+				cl4.RemoveRange(base+v.Lo, base+v.Hi+1)
+			case 1:
+				cl4.Flip(base+v.Lo, base+v.Hi+1)
+			default:
+				for x := v.Lo; x <= v.Hi; x++ {
+					cl4.Remove(uint32(base + x))
+				}
+			}
+		}
+		if !check("punch-holes", cl4, want) {
+			return
+		}
+		// Or of the two halves of T
+		p1, p2 := splitSet(r, T)
+		b1 := build(sh(p1, base), "range", "opt", "addmany")
+		b2 := build(sh(p2, base), "range", "opt", "addmany")
+		if b1 == nil || b2 == nil {
+			return
+		}
+		if !check("Or", roaring.Or(b1, b2), want) {
+			return
+		}
+		cl5 := b1.Clone()
+		cl5.Or(b2)
+		if !check("IOr", cl5, want) {
+			return
+		}
+		if !check("FastOr", roaring.FastOr(b1, b2, b1), want) {
+			return
+		}
+	})
+	if c.Failed() {
+		return
+	}
+	// AddOffset64: the source chunk is a bitmap chunk (dense filler below) whose top part, shifted by d,
+	// becomes exactly T at the bottom of the next chunk
+	d := int64(span + 1 + r.Range(0, 20))
+	src := NewISet()
+	for _, v := range T.Intervals() {
+		src.AddRange(65536-uint64(d)+v.Lo, 65536-uint64(d)+v.Hi)
+	}
+	fill := ivsToSet(bernoulli(r, 0.5)).Restrict(0, 30000)
+	srcAll := src.Or(fill)
+	sb := build(sh(srcAll, base), "addmany", "add")
+	if sb == nil {
+		return
+	}
+	c.Step("AddOffset64(source with a bitmap chunk, %d): the piece spilling into key %d is the target", d, key+1)
+	c.Guard("tie/AddOffset", func() {
+		res := roaring.AddOffset64(sb, d)
+		wantAll := srcAll.Shift(d, 65536*2-1)
+		check("AddOffset", res, sh(wantAll, base))
+	})
 }
